@@ -192,6 +192,10 @@ func (s *server) CreateTable(ctx context.Context, req *btapb.CreateTableRequest)
 	if !validTableID.MatchString(req.TableId) {
 		return nil, status.Errorf(codes.InvalidArgument, "invalid table id %q", req.TableId)
 	}
+	if strings.HasSuffix(req.TableId, ".table.proto") || strings.HasSuffix(req.TableId, ".table.proto.tmp") {
+		// The disk engine keeps the definition of table "x" in the file "x.table.proto" (written as "x.table.proto.tmp").
+		return nil, status.Errorf(codes.InvalidArgument, "table id %q: the suffix .table.proto is reserved", req.TableId)
+	}
 	tbl := req.Parent + "/tables/" + req.TableId
 
 	s.mu.Lock()
